@@ -18,6 +18,9 @@ class AnchorMissing(Exception):
     pass
 
 
+_IBODIES = {}
+
+
 class Ctx:
     def __init__(self, prop, facts, tier, facts_all=None):
         self.prop = prop
@@ -78,6 +81,28 @@ class Ctx:
             raise AnchorMissing("no MIR body for " + defn)
         self.functions.add(defn)
         return b
+
+    def ibody(self, defn, **kw):
+        """the body with std combinator models, closure calls and un-named private helpers inlined (sa/inline.py):
+        the idiom-independent view of the function"""
+        from sa import fixtures, inline
+        key = ("inl", id(self.facts), defn, tuple(sorted(kw.items())))
+        if key not in _IBODIES:
+            rec = self.facts.bodies.get(defn)
+            if rec is None:
+                raise AnchorMissing("no MIR body for " + defn)
+            inl = inline.Inliner(self.facts, fixtures.model_facts(), **kw)
+            rec2 = inl.inline(rec)
+            _IBODIES[key] = (mir.Body(self.facts, rec2), inl.log)
+        b, log = _IBODIES[key]
+        self.functions.add(defn)
+        for _, _, desc in log:
+            if desc.startswith(("helper:", "closure:")):
+                self.functions.add(desc.split(":", 1)[1])
+        return b
+
+    def fibody(self, **kw):
+        return self.ibody(self.find(**kw))
 
     def fbody(self, **kw):
         return self.body(self.find(**kw))
